@@ -21,6 +21,7 @@ libcst expression nodes pynguin's factory / exporter emit              ↔ `Expr
   `_handle_ordinary_statement`, `_handle_assert`,
   `_handle_compound_statement`, `deserialize_function`                 ↔ `admitSmall`, `handleOrdinary`, `handleAssert`, `handleCompound`, `step`, `deserialize`
 `seeding.parse_seed_module` (header imports, one test per function)    ↔ `parseFunction`
+`seeding.parse_seed_module` (loop over the functions, `size() > 0`)      ↔ `parseFunctions` / `collect` / `parseSeedModule`
 `TestSuiteWriter._build_test_function` body (statement, then its
   assertions; `exc_types` all `None`)                                  ↔ `renderBody`
 
@@ -662,6 +663,32 @@ def parseFunctions (c : Cfg) : Bindings → List (List Line) → List (List PStm
   | bs, body :: rest =>
     let r := normLines c bs body
     deserialize c (normLines c [] r.2).2 :: parseFunctions c r.1 rest
+
+/-- the loop of `parse_seed_module` over the deserialised test functions (file order): a function
+contributes its test case iff at least one statement was admitted (`testcase.size() > 0`); nothing
+else decides — in particular NOT whether an equal-looking test case was imported before. -/
+def collect (tcs : List (List PStmt)) : List (List PStmt) := tcs.filter (fun tc => !tc.isEmpty)
+
+/-- `parse_seed_module`: the returned list of test cases -/
+def parseSeedModule (c : Cfg) (bs : Bindings) (fns : List (List Line)) : List (List PStmt) :=
+  collect (parseFunctions c bs fns)
+
+/-- file-order positions of the functions whose test case is returned (what the driver reports) -/
+def contributingFrom : Nat → List (List PStmt) → List Nat
+  | _, [] => []
+  | i, tc :: rest => if tc.isEmpty then contributingFrom (i + 1) rest else i :: contributingFrom (i + 1) rest
+
+def contributing (tcs : List (List PStmt)) : List Nat := contributingFrom 0 tcs
+
+/-- NOT the code: the loop with a de-duplication step (`elif testcase in testcases: skip`), for any
+notion `same` of "already imported" — kept to state what goes wrong (`C24_dedup_cex`). -/
+def collectDedup (same : List PStmt → List PStmt → Bool) :
+    List (List PStmt) → List (List PStmt) → List (List PStmt)
+  | acc, [] => acc
+  | acc, tc :: rest =>
+    if tc.isEmpty then collectDedup same acc rest
+    else if acc.any (fun t => same tc t) then collectDedup same acc rest
+    else collectDedup same (acc ++ [tc]) rest
 
 /-- the module-level normal forms that go with `parseFunctions` -/
 def specBodies (c : Cfg) : Bindings → List (List Line) → List (List Line)
